@@ -154,6 +154,10 @@ def replay_doc(ctx, doc, n):
             check_value(ctx, f"pc_joint(DataFrame {df.values.tolist()}, {cols}, gap_token={tok!r})", lambda: prs.pc_joint(df, cols, gap_token=tok), want, "pc_joint/table/gap_token", rp)
             if len(cols) == 2 and not df.isna().any().any():
                 check_value(ctx, f"pc((colA, colB)) {df.values.tolist()}", lambda: prs.pc((list(df[cols[0]]), list(df[cols[1]]))), want, "pc/tuple", rp)
+                import pandas as pd
+                sa = pd.Series(list(df[cols[0]]), index=range(10, 10 + len(df)), dtype=object)
+                sb = pd.Series(list(df[cols[1]]), index=list(range(len(df)))[::-1], dtype=object)
+                check_value(ctx, f"pc((Series colA, Series colB with other index labels)) {df.values.tolist()}", lambda: prs.pc((sa, sb)), want, "pc/tuple/series", rp)
         else:
             df2 = table_of(b, variant)
             check_value(ctx, f"pc(DataFrame {df.values.tolist()}, DataFrame {df2.values.tolist()})", lambda: prs.pc(df, df2), want, "pc/table2", rp)
